@@ -200,6 +200,9 @@ def create_allocation_list(context, data, consumers):
                 context, consumer_uuid)
             for allocation in allocations:
                 allocation.used = 0
+                # Write with the consumer whose generation has been checked
+                # against the request, not the one re-read just now.
+                allocation.consumer = consumer
                 allocation_objects.append(allocation)
 
     return allocation_objects
@@ -443,6 +446,9 @@ def _set_allocations_for_consumer(req, schema):
         allocations = alloc_obj.get_all_by_consumer_id(context, consumer_uuid)
         for allocation in allocations:
             allocation.used = 0
+            # Write with the consumer whose generation has been checked
+            # against the request, not the one re-read just now.
+            allocation.consumer = consumer
             allocation_objects.append(allocation)
     else:
         for resource_provider_uuid, allocation in allocation_data.items():
